@@ -6,6 +6,8 @@
 // of the mutated region (offsets from the driver's own layout table) and run
 // on real sessions of three routers. Stage T: streams with live sequence
 // state are validated by FrameSeal_Trace (rule composed with the window).
+// Stage T-rekey (rekey.go): the same oracle over histories in which the two
+// routers set up their keys several times, in the ways the router does it.
 package main
 
 import (
@@ -262,7 +264,7 @@ func clearOnWire(wire, payload []byte) bool {
 func main() { vf.Main("C02", "model_checking", run) }
 
 func run(c *vf.Ctx) {
-	c.Rule("M: TLC enumerates all 1536 cases (3 classes x switch block y/n x appendix y/n x 15 regions+none x transit y/n x 4 session relations) and checks signature/AEAD inputs against the protected-region rule. R: each case expanded over the class's message types, payload sizes {1,2,45,599,600,601,1599,5099,9599,9999,10000}, switch blocks {1,2,127,255}, appendices {1,64,9999,10000}, margins {(0,0),(12,16),(100,100)} and over bytes x bits of the mutated region (quick: first/last/random byte, bits 0,7,random; thorough: every byte x every bit up to 700-byte frames, 600 sampled bytes x 8 bits beyond), real sessions of three routers. T: streams with duplicates/reordering validated by FrameSeal_Trace. distinct = distinct (case, message type, sizes, byte offset, bit)")
+	c.Rule("M: TLC enumerates all 1536 cases (3 classes x switch block y/n x appendix y/n x 15 regions+none x transit y/n x 4 session relations) and checks signature/AEAD inputs against the protected-region rule. R: each case expanded over the class's message types, payload sizes {1,2,45,599,600,601,1599,5099,9599,9999,10000}, switch blocks {1,2,127,255}, appendices {1,64,9999,10000}, margins {(0,0),(12,16),(100,100)} and over bytes x bits of the mutated region (quick: first/last/random byte, bits 0,7,random; thorough: every byte x every bit up to 700-byte frames, 600 sampled bytes x 8 bits beyond), real sessions of three routers. T: streams with duplicates/reordering validated by FrameSeal_Trace. T-rekey: histories of 2-4 key set-ups between the same two routers (a side restarted / dropped its encryption session / kept it; hello style = client installs a new session and the server re-keys in place, both in place, both install; either router as client; also run by the real HelloPingHandler on two router stacks), traffic of all classes both ways after each, frames of the life before arriving late; same trace specification with the event rekey. distinct = distinct (case, message type, sizes, byte offset, bit)")
 	c.Assume("Ed25519 / ChaCha20-Poly1305 unforgeable (also tested: every flipped MAC/signature bit must fail)", "layout offsets are the driver's own table of the V1 format")
 
 	mc, err := c.TLC("FrameSeal", "FrameSeal_MC.cfg", vf.TLCOpts{Workers: 1, Coverage: true, Timeout: 5 * time.Minute})
@@ -626,4 +628,7 @@ func run(c *vf.Ctx) {
 		c.Violation(vf.Key("trace", ev["cls"], ev["rel"], fmt.Sprint(ev["mut"]), ev["ok"]), fmt.Sprintf("stream event %v is not allowed by FrameSeal_Trace (line %d)", ev, rejectAt), ev, nil)
 	}
 	c.Logf("T: %d events in %d streams validated", len(events), traces)
+
+	// ---- T-rekey: histories with more than one key set-up between the same two routers (rekey.go) ----
+	stageRekey(c)
 }
